@@ -462,7 +462,13 @@ def run_sweep(rng, acc, fns):
       m.setslice(VAR, None, None, vs)
     return cfg, m, init
 
-  cfg0, m0, init = fresh()
+  try:
+    cfg0, m0, init = fresh()
+  except Exception as e:  # pylint: disable=broad-except
+    # the set-up edits are valid ones: assigning fresh values to the *args tail
+    acc.violation(f'valid-edit-raises:setslice:varargs:setup:{type(e).__name__}',
+                  f'cfg[VARARGS:] = values raised {e!r}'[:300], {'fn': describe_fn(fn)})
+    return
   if compare_state(cfg0, m0, rng, acc):
     return   # reported by the history workload (constructor/varargs assignment)
   nops = 0
